@@ -47,7 +47,7 @@ import (
 var (
 	lkOnce     sync.Once
 	lkSnap     interface{}
-	lkPristine []*terminfo.Terminfo            // distinct registered pointers, by Name
+	lkPristine []*terminfo.Terminfo // distinct registered pointers, by Name
 	lkPrisVal  map[*terminfo.Terminfo]terminfo.Terminfo
 	lkNames    []string // registered names, sorted
 	lkTokRe    = regexp.MustCompile(`^[A-Za-z0-9._+-]+$`)
@@ -218,7 +218,13 @@ func lkDiff(a, b *terminfo.Terminfo) (string, string, string) {
 	return "", "", ""
 }
 
+// lkSame: deep equality of two entry values (one reflect walk; lkDiff is only used to name the difference)
+func lkSame(a, b *terminfo.Terminfo) bool { return reflect.DeepEqual(a, b) }
+
 func lkDiffFields(a, b *terminfo.Terminfo) []string {
+	if lkSame(a, b) {
+		return nil
+	}
 	var out []string
 	va, vb := reflect.ValueOf(*a), reflect.ValueOf(*b)
 	for i := 0; i < va.NumField(); i++ {
@@ -460,7 +466,7 @@ func execLookup(line string) h.Result {
 			envs := fmt.Sprintf("COLORTERM=%q TCELL_TRUECOLOR=%q", env.ct, env.tt)
 			if (t != nil) != pr.found {
 				add("lookup-order-dependent", fmt.Sprintf("after looking up %s, LookupTerminfo(%q) [%s] found=%v, but found=%v in a pristine registry", strings.Join(prev, ", "), name, envs, t != nil, pr.found))
-			} else if t != nil {
+			} else if t != nil && !lkSame(t, &pr.val) {
 				if f, got, exp := lkDiff(t, &pr.val); f != "" {
 					add("lookup-order-dependent", fmt.Sprintf("after looking up %s, LookupTerminfo(%q) [%s] returns %s = %s, but %s = %s when looked up in a pristine registry", strings.Join(prev, ", "), name, envs, f, got, f, exp))
 					tag["order-dependent"] = true
@@ -501,12 +507,12 @@ func execLookup(line string) h.Result {
 	var chg []string
 	for _, p := range lkPristine {
 		v := lkPrisVal[p]
-		if f, _, _ := lkDiff(p, &v); f != "" {
+		if !lkSame(p, &v) {
 			chg = append(chg, lkTok(v.Name)+":"+lkHash(p))
 		}
 	}
 	for _, a := range adds {
-		if f, _, _ := lkDiff(a.p, &a.val); f != "" {
+		if !lkSame(a.p, &a.val) {
 			chg = append(chg, lkTok(a.val.Name)+":"+lkHash(a.p))
 		}
 	}
@@ -629,6 +635,11 @@ func genLookup(g *h.Gen) {
 			poolSet[b+s] = true
 		}
 	}
+	var core []string // bases and their single-suffix variants: the thorough tier runs all ordered pairs of these
+	for n := range poolSet {
+		core = append(core, n)
+	}
+	sort.Strings(core)
 	for _, b := range []string{"xterm", "eterm", "screen", "rxvt", "sun", "nosuch", "st", "vt100"} {
 		for _, s1 := range sfx {
 			for _, s2 := range sfx {
@@ -697,8 +708,8 @@ func genLookup(g *h.Gen) {
 	}
 	if g.Thorough() {
 		// all ordered pairs in the neutral environment
-		for _, a := range pool {
-			for _, b := range pool {
+		for _, a := range core {
+			for _, b := range core {
 				g.Emit("lookup L %s; L %s", lkTok(a), lkTok(b))
 			}
 		}
